@@ -10,7 +10,8 @@
 //!   cfg <profile> bounded=<0|1>                    => ok
 //!   open <ep> <sid> <key> | accept <ep> <sid>      => ok
 //!   w <ep> <sid> <n>                               => ok            (n more bytes of gen_bytes(key) accepted by the writer)
-//!   fin <ep> <sid>                                 => ok            (shutdown returned Ok)
+//!   sd <ep> <sid>                                  => ok            (shutdown requested: no write is accepted afterwards)
+//!   fin <ep> <sid>                                 => ok            (shutdown returned Ok: data and FIN acknowledged)
 //!   r <ep> <sid> <n>                               => a=<a> s=<s>   (cumulative Adler-style sums of all bytes read so far)
 //!   eof <ep> <sid>                                 => ok
 //!   serr <ep> <sid> <op>                           => <kind>        (a stream operation failed)
@@ -117,7 +118,7 @@ fn plan_streams(rng: &mut Rng, thorough: bool) -> Vec<Plan> {
 }
 
 fn sid_num(sid: StreamId) -> u64 {
-    sid.id()
+    u64::from(sid)
 }
 
 #[derive(Default)]
@@ -157,6 +158,7 @@ async fn write_all(h: &History, ep: &'static str, sid: u64, mut w: StreamWriter,
             }
         }
     }
+    h.push(ep, format!("sd {ep} {sid}"), "ok".into());
     match w.shutdown().await {
         Ok(()) => {
             h.push(ep, format!("fin {ep} {sid}"), "ok".into());
@@ -227,6 +229,7 @@ async fn read_all(h: &History, sh: &Shared, ep: &'static str, sid: u64, mut r: S
         }
     }
     if let Some(mut w) = echo {
+        h.push(ep, format!("sd {ep} {sid}"), "ok".into());
         match w.shutdown().await {
             Ok(()) => h.push(ep, format!("fin {ep} {sid}"), "ok".into()),
             Err(e) => {
@@ -413,10 +416,37 @@ struct CaseResult {
     server_saw_conn: bool,
     term_c: Option<String>,
     term_s: Option<String>,
+    /// full text of the terminal errors (for the report only, never compared)
+    term_detail: Vec<String>,
     counts: std::collections::BTreeMap<&'static str, u64>,
     virt_ms: u64,
     expected_dirs: u64,
     complete_dirs: u64,
+}
+
+/// Canonical application-level summary of a run (no timing, no chunk boundaries): per endpoint and stream the
+/// bytes written / read, EOF, shutdown, stream errors; terminal error kinds; completion.
+fn summary(r: &CaseResult) -> std::collections::BTreeMap<String, String> {
+    let mut m = std::collections::BTreeMap::<String, u64>::new();
+    let mut out = std::collections::BTreeMap::<String, String>::new();
+    for ev in &r.evs {
+        let t: Vec<&str> = ev.op.split(' ').collect();
+        match t[0] {
+            "w" | "r" => *m.entry(format!("{} {} {}", t[0], t[1], t[2])).or_insert(0) += t[3].parse::<u64>().unwrap_or(0),
+            "eof" | "fin" | "sd" | "open" | "accept" | "close" => {
+                out.insert(ev.op.clone(), "1".into());
+            }
+            "serr" | "term" => {
+                out.insert(ev.op.clone(), ev.obs.clone());
+            }
+            _ => {}
+        }
+    }
+    for (k, v) in m {
+        out.insert(k, v.to_string());
+    }
+    out.insert("complete".into(), (r.complete as u8).to_string());
+    out
 }
 
 fn expected_dirs(plans: &[Plan]) -> u64 {
@@ -445,7 +475,7 @@ async fn one_case(profile: Profile, adv_rng: Rng, plans: Vec<Plan>, idle: Durati
                     let e = conn.terminated().await;
                     let k = sim::err_kind(&e);
                     h.push("s", "term s".into(), k.clone());
-                    let _ = term_s_tx.send(k);
+                    let _ = term_s_tx.send(format!("{k}|server: {e}"));
                 });
             }
             let ok = server_conn(h, sh, conn, plans).await;
@@ -465,6 +495,7 @@ async fn one_case(profile: Profile, adv_rng: Rng, plans: Vec<Plan>, idle: Durati
         server_saw_conn: false,
         term_c: None,
         term_s: None,
+        term_detail: vec![],
         counts: Default::default(),
         virt_ms: 0,
         expected_dirs: expected_dirs(&plans),
@@ -484,7 +515,7 @@ async fn one_case(profile: Profile, adv_rng: Rng, plans: Vec<Plan>, idle: Durati
             let e = conn.terminated().await;
             let k = sim::err_kind(&e);
             h.push("c", "term c".into(), k.clone());
-            let _ = term_c_tx.send(k);
+            let _ = term_c_tx.send(format!("{k}|client: {e}"));
         });
     }
     let deadline = t0 + budget;
@@ -525,6 +556,14 @@ async fn one_case(profile: Profile, adv_rng: Rng, plans: Vec<Plan>, idle: Durati
     }
     if res.term_s.is_none() {
         res.term_s = term_s_rx.try_recv().ok();
+    }
+    for t in [&mut res.term_c, &mut res.term_s] {
+        if let Some(x) = t.clone() {
+            if let Some((k, d)) = x.split_once('|') {
+                res.term_detail.push(d.to_string());
+                *t = Some(k.to_string());
+            }
+        }
     }
     server.abort();
     res.virt_ms = (tokio::time::Instant::now() - t0).as_millis() as u64;
@@ -569,7 +608,7 @@ fn inject_profiles() -> Vec<Profile> {
 /// Terminal connection errors two honest endpoints may see whatever the network does:
 /// an application close, or the loss of the (only) path by idle timeout / persistent loss.
 fn allowed_term(kind: &str) -> bool {
-    matches!(kind, "app" | "quic:NoViablePath" | "quic:None")
+    matches!(kind, "app" | "quic:Application" | "quic:NoViablePath" | "quic:None")
 }
 
 // ---------------------------------------------------------------------------------------------
@@ -611,12 +650,22 @@ fn run_profiles(o: &Opts, inject_only: bool) {
                     let adv_rng = Rng::new(seed ^ 0xADD, id);
                     let (p2, pl2) = (profile.clone(), plans.clone());
                     let out = sim::run_case(id, Duration::from_secs(120), move || one_case(p2, adv_rng, pl2, idle, budget));
-                    (id, profile, plans, idle, out)
+                    // monitor (e), differential leg: the same seed and workload over the identity network
+                    let base = if inject_only {
+                        let pl3 = plans.clone();
+                        let b = sim::run_case(id, Duration::from_secs(120), move || {
+                            one_case(Profile { name: "clean", bounded: true, ..Default::default() }, Rng::new(seed ^ 0xADD, id), pl3, idle, budget)
+                        });
+                        b.result.map(|r| summary(&r))
+                    } else {
+                        None
+                    };
+                    (id, profile, plans, idle, out, base)
                 })
             })
             .collect();
         for hnd in handles {
-            let (id, profile, plans, idle, out) = hnd.join().expect("case thread");
+            let (id, profile, plans, idle, out, base) = hnd.join().expect("case thread");
             sink.case(&id.to_string());
             sink.branch(&format!("profile:{}", profile.name));
             sink.branch(&format!("streams:{}", plans.len()));
@@ -648,8 +697,16 @@ fn run_profiles(o: &Opts, inject_only: bool) {
                 if let Some(k) = t {
                     if !allowed_term(k) {
                         let key = if inject_only { format!("close-by-injected-datagram:{k}") } else { format!("close-by-network-fault:{k}") };
-                        sink.monitor_fail(&key, &format!("{ep} connection was terminated with {k}: a transport error raised although both endpoints are honest (profile {}, faults {:?})", profile.name, r.counts));
+                        sink.monitor_fail(&key, &format!("{ep} connection was terminated with {k}: a transport error raised although both endpoints are honest (profile {}, faults {:?}; {:?})", profile.name, r.counts, r.term_detail));
                     }
+                }
+            }
+            if let Some(b) = &base {
+                let mine = summary(&r);
+                if *b != mine {
+                    let diff: Vec<String> = b.iter().filter(|(k, v)| mine.get(*k) != Some(*v)).map(|(k, v)| format!("{k}: {v} -> {}", mine.get(k).cloned().unwrap_or("-".into())))
+                        .chain(mine.iter().filter(|(k, _)| !b.contains_key(*k)).map(|(k, v)| format!("{k}: - -> {v}"))).take(6).collect();
+                    sink.monitor_fail("inject-changes-history", &format!("datagrams injected in addition to the untouched originals changed the application history (profile {}): {}", profile.name, diff.join("; ")));
                 }
             }
             if profile.bounded {
